@@ -93,6 +93,7 @@ type Sched struct {
 	siteCount  map[string]int
 	mapCount   map[string]int
 	draining   atomic.Bool
+	exempt     atomic.Uint64 // goroutine id whose zzsim calls are pass-through (set-up code)
 
 	pol       Policy
 	rng       *rand.Rand
@@ -201,7 +202,15 @@ func (s *Sched) cur() *Task {
 	return t
 }
 
+// Exempt marks the calling goroutine as set-up context: its zzsim calls pass
+// through without being scheduled or reported. Call Unexempt when done.
+func (s *Sched) Exempt()   { s.exempt.Store(gid()) }
+func (s *Sched) Unexempt() { s.exempt.Store(0) }
+
 func (s *Sched) noteUnknown(site string) {
+	if e := s.exempt.Load(); e != 0 && e == gid() {
+		return
+	}
 	s.mu.Lock()
 	if len(s.Unknown) < 20 {
 		s.Unknown = append(s.Unknown, site)
@@ -689,6 +698,13 @@ func (s *Sched) sleep(d time.Duration) {
 	case <-tm.C:
 	}
 }
+
+// AnyGoParked reports whether a task started by instrumented code (janitor,
+// notifier, gc) is parked at a yield point, i.e. is in the middle of something.
+func (s *Sched) AnyGoParked() bool { return s.anyBackgroundParked() }
+
+// SetAdvanceP changes the probability of seeded clock advances from now on.
+func (s *Sched) SetAdvanceP(p float64) { s.pol.AdvanceP = p }
 
 func (s *Sched) anyBackgroundParked() bool {
 	s.mu.Lock()
